@@ -493,10 +493,12 @@ func (vc *VC) havocMods(st *State, mods []modLoc) (wfs []func()) {
 			hk := vc.declare("hk", h.Sort)
 			vc.setHeap(st, m.key, hk)
 			wfs = append(wfs, func() { vc.heapWF(hk, m.key, st.Alloc.S) })
+			wfs = append(wfs, func() { vc.mapCard(hk, m.key, vc.heap(st, "ML"), "") })
 		case m.whole:
 			fr := vc.declare("hv", inner)
 			vc.setHeap(st, m.key, Store(h, m.obj, fr))
 			wfs = append(wfs, func() { vc.rowWF(fr, m.key, st.Alloc.S) })
+			wfs = append(wfs, func() { vc.mapCard(fr, m.key, vc.heap(st, "ML"), m.obj.S) })
 		case m.single:
 			fr := vc.declare("hv", arrayElemSort(inner))
 			vc.setHeap(st, m.key, Store(h, m.obj, Store(Select(h, m.obj), m.lo, fr)))
